@@ -1,13 +1,19 @@
 """C06 — every MDA algorithm converges to the multidisciplinary fixed point.
 
 Implementation side: random contractive coupled systems (affine with dyadic data, and a few non-linear
-contractions) are solved by every MDA class of the factory with random acceleration / relaxation /
-scaling / order / warm-start settings (real code, in-process).
+contractions; one or several strongly connected components, weakly coupled chains, private self-couplings)
+are solved by every MDA class of the factory — directly and through MDAChain, on plain disciplines and on
+process disciplines (MDOChain / MDOParallelChain / sub-MDA given as one discipline) — with random
+acceleration / relaxation / scaling / order / warm-start settings passed in every public form (keywords,
+settings model, create_mda, inner settings as dictionary or Pydantic model) (real code, in-process).
 
 Model side (Lean, Driver/C06.lean): the Jacobi / Gauss-Seidel / Newton iterations with the code's
 relaxation, accelerations, stop test (all residual scalings, scale fixed at the first iteration ever run),
 max_mda_iter and warm start are replayed in exact rational arithmetic on the affine systems; residual
-history, iteration count and returned couplings are compared with the real code (rounded stream).
+history, iteration count and returned couplings are compared with the real code (rounded stream). The model
+also computes WHICH variables a group resolves (`strongCouplingVars`, compared with the strong couplings the
+real MDA reports) and replays MDAChain: which components get an inner MDA (`requiresMda`), the settings the
+inner MDAs receive (`innerSettings`), their residual histories and the returned data (`chainExecute`).
 
 Oracle (from the property text, independent of model and code): every harness discipline is re-executed
 by an independent pure-Python twin on the returned data (residual <= bound, positive assertion) and the
@@ -1580,17 +1586,24 @@ def gen_probe(rng: common.Rng) -> dict[str, Any]:
 def run(ctx) -> Result:
     res = Result(PID)
     res.rule = (
-        "random contractive coupled systems (2-5 disciplines, variable sizes 1-3, strongly connected or several SCCs "
-        "with weak couplings, self-coupled disciplines, affine with dyadic coefficients and row sums <= 1/2, 1/4 or 1/8, or "
-        "non-linear t/(1+t^2), sin) x every MDA class of the factory (MDAChain with every inner MDA) x acceleration x "
-        "relaxation x 6 residual scalings x listing order x tolerance x warm start / second execution; a case is non-trivial "
-        "when the MDA iterates at least twice (or is a SciPy / chained solve); distinct by system+settings+inputs"
+        "random contractive coupled systems (2-5 disciplines + chains of up to 3 weakly coupled post-processing disciplines, "
+        "variable sizes 1-3; one strongly connected component, several components with weakly coupled disciplines, or several "
+        "groups of strongly coupled disciplines; self-coupled disciplines, incl. a private variable a member of a cycle only "
+        "feeds back to itself, contracting up to 16 times more slowly than the shared couplings; affine with dyadic coefficients "
+        "and row sums <= 1/2, 1/4 or 1/8, or non-linear t/(1+t^2), sin) x every MDA class of the factory (MDAChain with every "
+        "inner MDA; MDAJacobi / MDAGaussSeidel / MDAQuasiNewton / Jacobi-GS sequences also directly on several components, the "
+        "Newton-type ones directly on several strongly coupled groups) x process disciplines (members wrapped in an MDOChain / "
+        "MDOParallelChain / converged sub-MDA given as ONE discipline) x settings given as keywords, as a settings model, through "
+        "create_mda, inner settings as a dictionary or as the Pydantic model of the inner class x acceleration x relaxation x 6 "
+        "residual scalings x listing order x tolerance x warm start / second execution; a case is non-trivial when the MDA "
+        "iterates at least twice (or is a SciPy / chained solve); distinct by system+settings+inputs"
     )
     res.assumptions = [
-        "systems with weakly coupled disciplines are solved by MDAJacobi or through MDAChain (the other elementary MDAs only resolve strong couplings; MDANewtonRaphson rejects them)",
+        "MDANewtonRaphson (hence MDAGSNewton and sequences with a Newton stage) rejects weakly coupled disciplines with a documented ValueError ('use MDAChain'): such systems are solved through MDAChain; the direct use is only probed",
         "relaxation factors w with |1-w| + w*K <= 7/8 (the relaxed map is a contraction); max_mda_iter in {60, 100} suffices for these rates",
         "tolerances relative to an initial residual are >= 2^-30 (2^-16 inside MDASequential / MDAGSNewton) so that tol*scale stays above the resolution of floats",
         "SciPy Broyden runs that GEMSEO itself reports as not converged are not judged",
+        "an MDA used as a discipline of another MDA is given a tolerance 64 times tighter than the outer one (its answer is the discipline's output)",
     ]
     rng = ctx.rng
     corpus = load_corpus()
